@@ -312,3 +312,19 @@ func (p *Program) FileOf(pos token.Pos) *ast.File {
 	}
 	return nil
 }
+
+// IsRepoFunc: fn is declared in one of the repository's packages (its body was built from source).
+func (p *Program) IsRepoFunc(fn *ssa.Function) bool {
+	if fn == nil || fn.Blocks == nil {
+		return false
+	}
+	pk := fn.Pkg
+	if pk == nil && fn.Parent() != nil {
+		pk = fn.Parent().Pkg
+	}
+	if pk == nil {
+		return false
+	}
+	_, ok := p.SSA[pk.Pkg.Path()]
+	return ok
+}
